@@ -61,8 +61,22 @@ structure Element (α : Type) where
   hasNoData : Bool := false
   /-- `hasattr(el, "__iter__")` (only `Source` looks at it) -/
   hasIter : Bool := false
+  /-- `hasattr(el, "fill_into")` and callable (`FillSeq` uses the element as it is) -/
+  fillInto : Attr := .absent
+  /-- `hasattr(el, "_can_break_flow")` (`FillInto` may run it value by value) -/
+  canBreakFlow : Bool := false
+  /-- `isinstance(el, lena.core.Split)` (`FillInto` does not treat a `Split` as a callable) -/
+  isSplit : Bool := false
   /-- `el.run(flow)` -/
   runDen : Stage α := fun s => .ok s
+  /-- `el.run(flow)` on an object whose `run` was called (and drained) before on the flows `past`;
+  for an element without state this is `runDen` -/
+  rerunDen : List (Strm α) → Stage α := fun _ => runDen
+  /-- `el.fill_into(element, value)`: the values filled into `element` -/
+  fillIntoDen : α → Except Exc (List α) := fun x => .ok [x]
+  /-- the object itself as a value of a flow (when a `Sequence` is iterated as the first element of
+  a `Source`) -/
+  asValue : Option α := none
   /-- `el(value)` -/
   callDen : α → Except Exc α := fun x => .ok x
   /-- `el.fill(value)` after the history `h` -/
@@ -82,6 +96,13 @@ variable {α : Type}
 def Element.invokeRun (e : Element α) (s : Strm α) : Except Exc (Strm α) :=
   match e.run with
   | .method => e.runDen s
+  | .value => .error .typeError
+  | .absent => .error .attributeError
+
+/-- `el.run(flow)` after the earlier runs on `past` -/
+def Element.invokeRerun (e : Element α) (past : List (Strm α)) (s : Strm α) : Except Exc (Strm α) :=
+  match e.run with
+  | .method => e.rerunDen past s
   | .value => .error .typeError
   | .absent => .error .attributeError
 
@@ -181,12 +202,14 @@ def convertAll : List (Element α) → Except Exc (List (Stored α))
 structure Seq (α : Type) where
   nargs : Nat
   stored : List (Stored α)
+  /-- `_seq` as values (what iterating the sequence yields) -/
+  argVals : List α := []
 
 /-- `Sequence(*args)` -/
 def mkSequence (args : List (Element α)) : Except Exc (Seq α) :=
   match convertAll (dataSeq args) with
   | .error err => .error err
-  | .ok ss => .ok { nargs := args.length, stored := ss }
+  | .ok ss => .ok { nargs := args.length, stored := ss, argVals := args.filterMap (·.asValue) }
 
 /-- the loop `for el in self._data_seq: flow = el.run(flow)` -/
 def runStored : List (Stored α) → Stage α
@@ -199,11 +222,143 @@ def runStored : List (Stored α) → Stage α
 /-- `Sequence.run(flow)` (`flow_to_iter` does not change what a flow yields) -/
 def Seq.run (s : Seq α) : Stage α := runStored s.stored
 
-/-- a constructed `Sequence` used as an argument of another sequence: it has a callable `run`
-and none of the other interfaces (`__len__`/`__iter__` exist, but `Source` is never given one
-here as first element) -/
+/-! ### a sequence object that is run again (inside `RunIf`, inside a `Split` branch) -/
+
+/-- the values of earlier inputs -/
+def pastVals (past : List (Strm α)) : List α := past.flatMap (·.vals)
+
+/-- `stored.run(flow)` after the earlier (completed) runs on `past`: the element's own `run` sees its
+state; `_call_run` has none; `_fc_run` fills an element that still holds all past values -/
+def Stored.rerun (past : List (Strm α)) : Stored α → Stage α
+  | .asIs e => e.invokeRerun past
+  | .adapted .runMethod e => e.invokeRerun past
+  | .adapted .callRun e => fun s => .ok (mapS e.invokeCall s)
+  | .adapted .fcRun e => fun s => fcLoop e s.term (pastVals past) s.vals
+
+/-- what `stored.run` yielded in the earlier runs (the earlier inputs of the next element) -/
+def pastOuts (st : Stored α) : List (Strm α) → List (Strm α) → List (Strm α)
+  | _, [] => []
+  | done, s :: rest => observe (st.rerun done s) :: pastOuts st (done ++ [s]) rest
+
+/-- the loop of `Sequence.run` on a sequence object that was run before on `past` -/
+def rerunStored : List (Stored α) → List (Strm α) → Stage α
+  | [], _, s => .ok s
+  | st :: ss, past, s =>
+    match st.rerun past s with
+    | .error err => .error err
+    | .ok s' => rerunStored ss (pastOuts st [] past) s'
+
+def Seq.rerun (s : Seq α) (past : List (Strm α)) : Stage α := rerunStored s.stored past
+
+/-- a constructed `Sequence` used as an argument of another sequence: it has a callable `run`, and
+it is iterable (`LenaSequence.__iter__` yields its arguments) -/
 def Seq.toElement (s : Seq α) : Element α :=
-  { run := .method, runDen := s.run }
+  { run := .method, runDen := s.run, rerunDen := s.rerun, hasIter := true, iterDen := .ofList s.argVals }
+
+/-! ## `FillComputeSeq` as a `Split` branch (`_get_seq_with_type`, `FillSeq.__init__`, `adapters.FillInto`) -/
+
+/-- how `FillSeq` lets an element before the fill/compute element pass a value on -/
+inductive FillStage (α : Type) where
+  /-- the element's own `fill_into` -/
+  | viaFillInto (e : Element α)
+  /-- `FillInto.fill_into`: `element.fill(self._el(value))` -/
+  | viaCall (e : Element α)
+  /-- `FillInto._run_fill_into`: `for result in self._el.run([value]): element.fill(result)` -/
+  | viaRun (e : Element α)
+
+/-- the loop body of `FillSeq.__init__` with `adapters.FillInto.__init__` (no `fill_into` keyword) -/
+def toFillStage (e : Element α) : Except Exc (FillStage α) :=
+  if e.fillInto.present && e.fillInto.callable then .ok (.viaFillInto e)
+  else if e.call && !e.isSplit then .ok (.viaCall e)
+  else if (e.run.present && e.run.callable) && e.canBreakFlow then .ok (.viaRun e)
+  else .error .lenaTypeError
+
+def toFillStages : List (Element α) → Except Exc (List (FillStage α))
+  | [] => .ok []
+  | e :: es =>
+    match toFillStage e with
+    | .error err => .error err
+    | .ok st =>
+      match toFillStages es with
+      | .error err => .error err
+      | .ok sts => .ok (st :: sts)
+
+/-- the values one stage fills into the next element for the value `v` (and the exception after them) -/
+def FillStage.feed : FillStage α → α → Strm α
+  | .viaFillInto e, v =>
+    match e.fillIntoDen v with
+    | .error err => .fail err
+    | .ok ys => .ofList ys
+  | .viaCall e, v =>
+    match e.invokeCall v with
+    | .error err => .fail err
+    | .ok y => .ofList [y]
+  | .viaRun e, v => observe (e.invokeRun (.ofList [v]))
+
+/-- the `_Fill` chain: every value a stage passes on goes through the rest of the chain before the
+stage produces its next one -/
+def feedChain : List (FillStage α) → α → Strm α
+  | [], v => .ofList [v]
+  | st :: rest, v => bindS (feedChain rest) (st.feed v)
+
+/-- split `_data_seq` at the first fill/compute element -/
+def splitAtFc : List (Element α) → Option (List (Element α) × Element α × List (Element α))
+  | [] => none
+  | e :: es =>
+    if isFillComputeEl e then some ([], e, es)
+    else
+      match splitAtFc es with
+      | none => none
+      | some (b, fc, a) => some (e :: b, fc, a)
+
+/-- `_get_seq_with_type(seq)` for a tuple `seq` of elements: a tuple that contains a fill/compute
+element becomes `FillComputeSeq(*seq)`, any other `Sequence(*seq)` (no element of the vocabulary
+has `request`) -/
+def mkBranch (es : List (Element α)) : Except Exc (Branch α) :=
+  if es.any isFillComputeEl then
+    match splitAtFc (dataSeq es) with
+    | none => .error .lenaTypeError                     -- "must contain a FillCompute element"
+    | some (before, fc, after) =>
+      match toFillStages before with                    -- `FillSeq(*before)`
+      | .error err => .error err
+      | .ok stages =>
+        match mkSequence after with                     -- `Sequence(*after)`
+        | .error err => .error err
+        | .ok aseq =>
+          .ok (.fcB (feedChain stages) fc.invokeFill
+                (fun h => observe (match fc.invokeCompute h with
+                                   | .error err => .error err
+                                   | .ok st => aseq.run st)))
+  else
+    match mkSequence es with
+    | .error err => .error err
+    | .ok s => .ok (.seqB s.rerun)
+
+/-- the loop over `seqs` of `Split.__init__` -/
+def mkBranches : List (List (Element α)) → Except Exc (List (Branch α))
+  | [] => .ok []
+  | es :: ess =>
+    match mkBranch es with
+    | .error e => .error e
+    | .ok b =>
+      match mkBranches ess with
+      | .error e => .error e
+      | .ok bs => .ok (b :: bs)
+
+/-- a constructed `Split(seqs, bufsize)`: `run`, `__call__` (a generator that raises
+`LenaAttributeError` unless every sequence is a `Source`), and `fill`/`compute` when every sequence
+has type "fill_compute" -/
+def splitElement (brs : List (Branch α)) (bufsize : Option Nat) : Element α :=
+  let allFc := !brs.isEmpty && brs.all Branch.isFc
+  { run := .method, call := true, isSplit := true
+    fill := if allFc then .method else .absent
+    compute := if allFc then .method else .absent
+    runDen := fun s => .ok (splitRerun brs bufsize [] s)
+    rerunDen := fun past s => .ok (splitRerun brs bufsize past s)
+    callDen := fun _ => .error .typeError
+    fillDen := splitFill brs
+    computeDen := fun h => .ok (splitCompute brs h)
+    genDen := .ok (.fail .lenaAttributeError) }
 
 /-! ## nested sequences -/
 
@@ -331,6 +486,12 @@ inductive Spec where
   | split (branches : List (List Spec)) (bufsize : Option Nat)
   /-- `lena.core.Run(el)` built by the caller -/
   | runAdapter (inner : Spec)
+  /-- `lena.core.Run(el, run="run")` -/
+  | runNamed (inner : Spec)
+  /-- `lena.core.Run(None, run=g)` with `g` a generator function that maps `f` over the flow -/
+  | runNone (f : Fn)
+  /-- `lena.core.Run(None, run=5)` -/
+  | runNoneBad
   /-- instance of a synthetic class with the given attributes -/
   | syn (run : Attr) (call : Bool) (fill compute : Attr) (nodata : Bool)
   /-- an object with none of the interfaces (`5`, `"abc"`, `None`) -/
@@ -344,8 +505,12 @@ inductive Spec where
 
 /-- marks put by the methods of the synthetic classes: `run` yields `["run", v]` for every `v`,
 `__call__` returns `["call", v]`, `compute` yields `["fc", [filled values]]` (all generators) -/
+def attrNum : Attr → Nat
+  | .absent => 0 | .value => 1 | .method => 2
+
 def synElement (run : Attr) (call : Bool) (fill compute : Attr) (nodata : Bool) : Element Value :=
   { run := run, call := call, fill := fill, compute := compute, hasNoData := nodata
+    asValue := some (objValue s!"Syn_r{attrNum run}_c{if call then 1 else 0}_f{attrNum fill}_p{attrNum compute}_n{if nodata then 1 else 0}")
     runDen := fun s => .ok (mapS (fun v => .ok (.list [.str "run", v])) s)
     callDen := fun v => .ok (.list [.str "call", v])
     fillDen := fun _ _ => .ok ()
@@ -354,15 +519,17 @@ def synElement (run : Attr) (call : Bool) (fill compute : Attr) (nodata : Bool) 
 
 /-- what iterating the generator `compute()` of an accumulator gives: its exceptions are raised
 by the first `next` -/
-def accComputeS (k : AccKind) (s : AccState) : Strm Value :=
-  match accCompute k s with
+def accComputeS (k : AccKind) (s : QState) : Strm Value :=
+  match accComputeQ k s with
   | .error e => .fail e
   | .ok ys => .ofList ys
 
 /-- an `Acc` as an `Element` with `fill` and `compute` -/
 def accElement (k : AccKind) : Element Value :=
-  let a := accOf k
+  let a := accOfQ k
   { fill := .method, compute := .method
+    asValue := some (objValue (match k with
+      | .sum => "Sum" | .mean => "Mean" | .store _ => "StoreFilled" | .count _ => "FillCompute"))
     fillDen := fun h v =>
       match a.fillAll a.init h with
       | .error e => .error e
@@ -381,30 +548,35 @@ def runIfSeq (singleSequence : Bool) (es : List (Element Value)) : Except Exc (E
   | true, [e] => .ok e
   | _, es => (mkSequence es).map Seq.toElement
 
-/-- the loop over `seqs` of `Split.__init__`: `_get_seq_with_type` turns a tuple without fill/compute
-(fill/request) elements into `Sequence(*seq)` -/
-def mkBranches : List (List (Element Value)) → Except Exc (List (Seq Value))
-  | [] => .ok []
-  | es :: ess =>
-    match mkSequence es with
-    | .error e => .error e
-    | .ok s =>
-      match mkBranches ess with
-      | .error e => .error e
-      | .ok ss => .ok (s :: ss)
+/-- earlier runs of `Count.run` added the lengths of their flows to `count` -/
+def pastCount (past : List (Strm Value)) : Int := ((pastVals past).length : Nat)
 
 mutual
 /-- the Python object denoted by a `Spec` (constructors may raise) -/
 def Spec.toElement : Spec → Except Exc (Element Value)
-  | .call f => .ok { call := true, callDen := f.call, genDen := .error .typeError }
-  | .var name g => .ok { call := true, callDen := variableCall name g, genDen := .error .typeError }
-  | .filter p => .ok { run := .method, runDen := fun s => .ok (filterS p.eval s) }
+  | .call f => .ok { call := true, callDen := f.call, genDen := .error .typeError, asValue := some (objValue "function") }
+  | .var name g => .ok { call := true, callDen := variableCall name g, genDen := .error .typeError
+                         asValue := some (objValue "Variable") }
+  | .filter p =>
+    .ok { run := .method, runDen := fun s => .ok (filterS p.eval s), asValue := some (objValue "Filter")
+          fillInto := .method
+          fillIntoDen := fun v => match p.eval v with
+            | .error e => .error e
+            | .ok true => .ok [v]
+            | .ok false => .ok [] }
   | .slice a b s =>
     match Lena.C17.mkSlice a b s with
     | .valueError => .error .lenaValueError
-    | k => .ok { run := .method, runDen := fun s => .ok (sliceS k s) }
+    | k => .ok { run := .method, runDen := fun s => .ok (sliceS k s), asValue := some (objValue "Slice")
+                 -- `Slice.fill_into` (C17) is not part of this model: never generated before a fill/compute element
+                 fillInto := .method, fillIntoDen := fun _ => .error .lenaNotImplementedError }
   | .count name =>
-    .ok { (accElement (.count name)) with run := .method, runDen := fun s => .ok (countS name 0 s) }
+    .ok { (accElement (.count name)) with
+          run := .method, runDen := fun s => .ok (countS name 0 s)
+          rerunDen := fun past s => .ok (countS name (pastCount past) s)
+          asValue := some (objValue "Count")
+          -- `Count.fill_into` shares `count` with `run`: not part of this model, never generated there
+          fillInto := .method, fillIntoDen := fun _ => .error .lenaNotImplementedError }
   | .runIf p inner =>
     -- `RunIf.__init__`: `lena.core.Sequence(*args)` (a single `Sequence` argument is used as is)
     match Spec.toElements inner with
@@ -412,30 +584,27 @@ def Spec.toElement : Spec → Except Exc (Element Value)
     | .ok es =>
       match runIfSeq (match inner with | [.seq _] => true | _ => false) es with
       | .error e => .error e
-      | .ok s => .ok { run := .method, runDen := fun fl => .ok (runIfS p.eval s.invokeRun fl) }
-  | .reverse => .ok { run := .method, runDen := fun s => .ok (reverseS s) }
-  | .end_ => .ok { run := .method, runDen := fun s => .ok (endS s) }
+      | .ok s => .ok { run := .method, canBreakFlow := true, asValue := some (objValue "RunIf")
+                       runDen := fun fl => .ok (runIfH p.eval s.invokeRerun [] fl)
+                       rerunDen := fun past fl => .ok (runIfH p.eval s.invokeRerun past fl) }
+  | .reverse => .ok { run := .method, runDen := fun s => .ok (reverseS s), asValue := some (objValue "Reverse") }
+  | .end_ => .ok { run := .method, runDen := fun s => .ok (endS s), asValue := some (objValue "End") }
   | .acc k => .ok (accElement k)
   | .seq els =>
     match Spec.toElements els with
     | .error e => .error e
     | .ok es => (mkSequence es).map Seq.toElement
   | .split branches bufsize =>
-    -- `_get_seq_with_type`: a tuple without fill/compute elements becomes `Sequence(*seq)`;
-    -- then the `bufsize` test; `Split` has `run` and `__call__` (a generator that raises
-    -- `LenaAttributeError` unless every sequence is a `Source`)
-    -- (the elements of all branches are built before `Split.__init__` converts the first tuple)
+    -- the elements of all tuples are built first; then `Split.__init__`: `_get_seq_with_type` for every
+    -- tuple, then the `bufsize` test
     match Spec.toElementss branches with
     | .error e => .error e
     | .ok ess =>
     match mkBranches ess with
     | .error e => .error e
-    | .ok bs =>
+    | .ok brs =>
       if bufsize = some 0 then .error .lenaValueError
-      else .ok { run := .method, call := true
-                 runDen := fun s => .ok (splitS (bs.map Seq.run) bufsize s)
-                 callDen := fun _ => .error .typeError
-                 genDen := .ok (.fail .lenaAttributeError) }
+      else .ok { (splitElement brs bufsize) with asValue := some (objValue "Split") }
   | .runAdapter inner =>
     -- `adapters.Run.__init__`; the adapter object has the bound `run` and nothing else
     match Spec.toElement inner with
@@ -443,12 +612,25 @@ def Spec.toElement : Spec → Except Exc (Element Value)
     | .ok el =>
       match mkRun el with
       | .error e => .error e
-      | .ok st => .ok { run := .method, runDen := st.run }
+      | .ok st => .ok { run := .method, runDen := st.run, rerunDen := fun past => st.rerun past
+                        asValue := some (objValue "Run") }
+  | .runNamed inner =>
+    -- `Run(el, run="run")`: `callable(getattr(el, "run", None))`, else `LenaTypeError` (no conversion)
+    match Spec.toElement inner with
+    | .error e => .error e
+    | .ok el =>
+      if el.run.callable then
+        .ok { run := .method, runDen := el.runDen, rerunDen := el.rerunDen, asValue := some (objValue "Run") }
+      else .error .lenaTypeError
+  | .runNone f =>
+    .ok { run := .method, runDen := fun s => .ok (mapS f.call s), asValue := some (objValue "Run") }
+  | .runNoneBad => .ok { run := .value, asValue := some (objValue "Run") }
   | .syn r c f cp nd => .ok (synElement r c f cp nd)
-  | .junk => .ok {}
-  | .setContext => .ok { hasNoData := true }
-  | .gen flow => .ok { call := true, callDen := fun _ => .error .typeError, genDen := .ok (.ofList flow) }
-  | .iter flow => .ok { hasIter := true, iterDen := .ofList flow }
+  | .junk => .ok { asValue := some (objValue "NoneType") }
+  | .setContext => .ok { hasNoData := true, asValue := some (objValue "SetContext") }
+  | .gen flow => .ok { call := true, callDen := fun _ => .error .typeError, genDen := .ok (.ofList flow)
+                       asValue := some (objValue "function") }
+  | .iter flow => .ok { hasIter := true, iterDen := .ofList flow, asValue := some (.list flow) }
 def Spec.toElements : List Spec → Except Exc (List (Element Value))
   | [] => .ok []
   | s :: ss =>
@@ -506,6 +688,9 @@ def Spec.flat : Spec → List Spec
   | .acc k => [.acc k]
   | .split b s => [.split b s]
   | .runAdapter i => [.runAdapter i]
+  | .runNamed i => [.runNamed i]
+  | .runNone f => [.runNone f]
+  | .runNoneBad => [.runNoneBad]
   | .syn r c f p n => [.syn r c f p n]
   | .junk => [.junk]
   | .setContext => [.setContext]
